@@ -114,7 +114,7 @@ def apply_spec(fns, path):
                 setattr(f, k, int(v))
             elif k == 'flags':
                 f.flags = v.split()
-            elif k in ('cover', 'no_enforce'):
+            elif k in ('cover', 'no_enforce', 'no_loop_contracts'):
                 setattr(f, k, v not in ('0', 'false', 'no'))
             else:
                 setattr(f, k, v)
@@ -315,7 +315,7 @@ def cache_key(kind, text, f, unit):
         TOOLSIG = subprocess.run(['cbmc', '--version'], stdout=subprocess.PIPE).stdout.decode().strip()
     h = hashlib.sha256()
     for part in (kind, TOOLSIG, text, f.name, ' '.join(f.replace), ' '.join(f.flags), f.solver, str(f.unwind), str(f.objbits),
-                 str(f.no_enforce), ' '.join(CBMC_CHECKS), json.dumps(unit.defines, sort_keys=True)):
+                 str(f.no_enforce), str(getattr(f, 'no_loop_contracts', False)), ' '.join(CBMC_CHECKS), json.dumps(unit.defines, sort_keys=True)):
         h.update(part.encode()); h.update(b'\0')
     return h.hexdigest()
 
@@ -372,7 +372,10 @@ def _verify_fn(unit, f, text, base, cfile, outdir, r):
         gi += ['--enforce-contract', f.name]
     for c in f.replace:
         gi += ['--replace-call-with-contract', c]
-    gi += ['--apply-loop-contracts', base + '.a.gb', base + '.b.gb']
+    if getattr(f, 'no_loop_contracts', False):
+        gi += [base + '.a.gb', base + '.b.gb']        # bounded variant: plain loops, unwound by cbmc with unwinding assertions
+    else:
+        gi += ['--apply-loop-contracts', base + '.a.gb', base + '.b.gb']
     rc, so, se, dt = run(gi, 300)
     r.cmds.append(' '.join(gi[:-2]).replace(outdir + '/', ''))
     if rc != 0:
